@@ -320,6 +320,42 @@ func overflowGuards(fn *ssa.Function, arith ssa.Instruction, operands []ssa.Valu
 		// comparison that can flow into it; such a variable must send its true edge away from the arithmetic
 		var cmps []*ssa.BinOp
 		viaFlag := false
+		// the test handed to a predicate (if addOverflows(cur, delta) { return errOverflow }): the bounds it compares with
+		{
+			cv := iff.Cond
+			for {
+				u, isNot := cv.(*ssa.UnOp)
+				if !isNot || u.Op != token.NOT {
+					break
+				}
+				cv = u.X
+			}
+			if pc, isCall := cv.(*ssa.Call); isCall {
+				if cf := pc.Call.StaticCallee(); cf != nil && firstParty(cf) && cf.Blocks != nil && len(cf.Blocks) <= 12 {
+					takes := false
+					for _, a := range pc.Call.Args {
+						if isOperand(a) {
+							takes = true
+						}
+					}
+					if takes && (b.Dominates(arith.Block()) || reach(b, arith.Block())) && (!reach(b.Succs[0], arith.Block()) || !reach(b.Succs[1], arith.Block())) {
+						for _, cb := range cf.Blocks {
+							for _, ci := range cb.Instrs {
+								if bo, ok := ci.(*ssa.BinOp); ok {
+									switch bo.Op {
+									case token.GTR, token.LSS, token.GEQ, token.LEQ:
+										h1, l1 := extreme(bo.X)
+										h2, l2 := extreme(bo.Y)
+										hi = hi || h1 || h2
+										lo = lo || l1 || l2
+									}
+								}
+							}
+						}
+					}
+				}
+			}
+		}
 		if bo, ok := iff.Cond.(*ssa.BinOp); ok {
 			cmps = []*ssa.BinOp{bo}
 		} else if phi, ok := iff.Cond.(*ssa.Phi); ok {
